@@ -458,10 +458,14 @@ func owner(name string) string {
 func TopLevelSourceFuncs(prog *ssa.Program) []*ssa.Function {
 	var out []*ssa.Function
 	for fn := range ssautil.AllFunctions(prog) {
+		if strings.HasPrefix(fn.Synthetic, "instance of ") {
+			ssa.VerifInstancePkg(fn)
+		}
 		if fn.Pkg == nil || fn.Pkg.Pkg == nil || !strings.HasPrefix(fn.Pkg.Pkg.Path(), ModulePath) {
 			continue
 		}
-		if fn.Parent() != nil || fn.Synthetic != "" || fn.Syntax() == nil || len(fn.Blocks) == 0 {
+		// (instances of generic functions count: a generic helper is a helper)
+		if fn.Parent() != nil || (fn.Synthetic != "" && !strings.HasPrefix(fn.Synthetic, "instance of ")) || fn.Syntax() == nil || len(fn.Blocks) == 0 {
 			continue
 		}
 		if strings.HasSuffix(prog.Fset.Position(fn.Pos()).Filename, "_test.go") {
